@@ -187,10 +187,28 @@ func genC07(t *rapid.T) AxisCase {
 		}
 		m.Axes = append(m.Axes, a)
 	}
+	// a second sub-handler of the same device may expose the same axis codes (e.g. stick and touchpad both report
+	// ABS_X): its axes are independent ones, with their own controllers
+	if rapid.IntRange(0, 9).Draw(t, "secondSub") < 4 {
+		m.AnalogSubs = append(m.AnalogSubs, AnalogSub{Sub: "Touchpad", Default: floatp(genDeadzone(t, "subdz2"))})
+		for i := 0; i < nAxes; i++ {
+			b := m.Axes[i]
+			b.Sub = "Touchpad"
+			b.CC, b.CCNeg = intp(ccs[2*nAxes+2*i]), intp(ccs[2*nAxes+2*i+1])
+			b.Deadzone = nil
+			if rapid.Bool().Draw(t, "flip2") {
+				b.Flip = boolp(true)
+			} else {
+				b.Flip = nil
+			}
+			m.Axes = append(m.Axes, b)
+		}
+	}
+	nAll := len(m.Axes)
 	n := rapid.IntRange(1, 40).Draw(t, "len")
 	var steps []Step
 	learnDown := false
-	side := make([]int, nAxes)
+	side := make([]int, nAll)
 	for len(steps) < n {
 		if rapid.IntRange(0, 9).Draw(t, "learnToggle") == 0 {
 			learnDown = !learnDown
@@ -201,7 +219,7 @@ func genC07(t *rapid.T) AxisCase {
 			steps = append(steps, Step{T: "key", Code: learn, Val: v})
 			continue
 		}
-		i := rapid.IntRange(0, nAxes-1).Draw(t, "axis")
+		i := rapid.IntRange(0, nAll-1).Draw(t, "axis")
 		a := &m.Axes[i]
 		lo, hi := float64(a.Min), float64(a.Max)
 		mid := 0.0
@@ -250,7 +268,7 @@ func genC07(t *rapid.T) AxisCase {
 		if r > hi {
 			r = hi
 		}
-		steps = append(steps, Step{T: "abs", Sub: "", Code: a.Code, Val: int32(r)})
+		steps = append(steps, Step{T: "abs", Sub: a.Sub, Code: a.Code, Val: int32(r)})
 	}
 	return AxisCase{D: d, Steps: steps}
 }
